@@ -252,6 +252,9 @@ def run(P, rep, tier):
         if n == 0:
             rep.undecided('R20.1', '%s:gen_expr:%s' % (U, kind), 'no returning path for a kind gen_expr has an arm for')
     r_calls(cg, P, rep, tier)
+    from .c04 import r_alloca
+    rep.rule('R20.6', 'alloca moves every pending pushed temporary down with %rsp (full byte count, same distance), so later pops read what was pushed', floor=5)
+    r_alloca(cg, rep, rule='R20.6')
     for kind in STMT_KINDS:
         n = check_kind(cg, rep, 'R20.2', 'gen_stmt', kind, preset_stmt(cg, kind), ret_stmt=(kind == 'ND_RETURN'))
         if n == 0:
